@@ -146,7 +146,8 @@ func cmdCheck(args []string) int {
 			suffix := fk[7:]
 			var ks []string
 			for key, ct := range e.db.Contracts {
-				if ct.Trusted || !strings.HasSuffix(ct.Pkg, suffix) {
+				if ct.Trusted || !strings.HasSuffix(ct.Pkg, suffix) || ct.Flags["inline"] {
+					// (inline-flagged contracts are proved where they are inlined, not on their own)
 					continue
 				}
 				for _, cl := range ct.Clauses {
